@@ -407,9 +407,10 @@ fn check_is_valid_implementation(
                 }
             };
 
-            if !arg.ty.is_subtype(&impl_arg.ty) {
+            // argument types are invariant
+            if arg.ty != impl_arg.ty {
                 return Err(format!(
-                    "Argument \"{}.{}.{}\" is not sub-type of \"{}.{}.{}\"",
+                    "Argument \"{}.{}.{}\" is not the same type as \"{}.{}.{}\"",
                     implemented_type.name,
                     field.name,
                     arg.name,
